@@ -99,11 +99,14 @@ def abs_link_text(names, root, raw):
     out = []
     if raw == r or raw.startswith(r + b"/"):
         out.append("/ABS")
+        if raw == r:
+            return out
         raw = raw[len(r) + 1:]
     elif raw.startswith(b"/"):
         return ["?" + raw.hex()]
     for c in raw.split(b"/"):
-        if c == b"":
+        if c == b"":                      # "x/", "x//y": the text is compared byte for byte, empty components included
+            out.append("")
             continue
         out.append(c.decode() if c in (b"..", b".") else names.abs(c))
     return out
